@@ -154,7 +154,7 @@ def enum_configs(tier):
     cfgs = []
     # random_range lives in the base class shared by all back-ends: the dense grid runs on the
     # cheapest one (pure Python), a sparse grid on the default (GMP), custom-C and GMP classes
-    dense = list(range(1, 257)) + (list(range(257, 301)) if tier == "quick" else list(range(257, 1101)))
+    dense = list(range(1, 257)) + (list(range(257, 521)) if tier == "quick" else list(range(257, 1101)))
     for n in dense:
         cfgs.append(["rr_excl", "native", 0, n])
     sparse = [1, 2, 3, 5, 7, 8, 9, 15, 16, 17, 100, 127, 128, 129, 200, 255, 256] + ([257, 300] if tier == "thorough" else [])
@@ -175,7 +175,7 @@ def enum_configs(tier):
             cfgs.append(["num_nbit", bits])
     for bits in range(3, 11 if tier == "quick" else 15):
         cfgs.append(["num_getprime", bits])       # "a random N-bit prime": every N-bit prime equally likely (sieve-decided sizes)
-    for n in list(range(1, 257)) + ([300, 511, 512, 513] if tier == "thorough" else []):
+    for n in list(range(1, 257)) + [300, 511, 512, 513]:
         cfgs.append(["sr_randrange", n])
     for a, b in [(0, 1), (0, 7), (3, 9), (-5, 5), (10, 300), (0, 255), (0, 256), (1, 6)]:
         cfgs.append(["sr_randint", a, b])
@@ -289,7 +289,7 @@ class Machine(object):
         self.tier = tier
         self.enum = enum_configs(tier)
         self.node_budget = 140000 if tier == "quick" else 1200000
-        self.nseeded = 3000 if tier == "quick" else 100000
+        self.nseeded = 8000 if tier == "quick" else 100000
         from Crypto.PublicKey import DSA, RSA
         # fixed keys for the boundary/global cases (generated once, deterministically, in the parent)
         entropy.reset_stream("c18-keys")
